@@ -22,6 +22,13 @@ Proof. exact routed_max_ok. Qed.
 Theorem C08_groups : forall tr f sel b, has_group sel (materialize_p tr f b) = true <-> base_vals tr sel b <> [].
 Proof. exact routed_group_ok. Qed.
 
+(* the same with NULL measure values (a NULL-valued row makes its bucket exist but no aggregate sees it): SUM ignores NULL bucket
+   sums and is NULL when no selected row has a value; COUNT(v) counts the non-NULL values *)
+Theorem C08_sum_null : forall tr sel b, routed_sum_n sel (materialize_n tr b) = base_sum_n tr sel b.
+Proof. exact routed_sum_null_ok. Qed.
+Theorem C08_count_null : forall tr sel b, routed_count_n sel (materialize_n tr b) = Z.of_nat (length (base_vals tr sel (non_null_rows b))).
+Proof. exact routed_count_null_ok. Qed.
+
 (* a coarser query granularity q over a rollup at granularity p: grouping / filtering by DATE_TRUNC(q, bucket) selects exactly
    the base rows with that DATE_TRUNC(q, ts), whenever q-buckets are unions of p-buckets -- for every timestamp *)
 Theorem C08_granularity : forall q p (g : Z -> Z -> bool) b, nested q p ->
@@ -53,6 +60,11 @@ Proof. exact avg_stored_as_avg_refuted. Qed.
 Example C08_raw_time_filter_refuted :
   routed_sum (fun k => 5 <=? fst k) (materialize_p day median [B 7 0 1; B 12 0 2]) = 2 /\ zsum (map b_v (filter (fun y => 5 <=? b_ts y) [B 7 0 1; B 12 0 2])) = 3.
 Proof. exact raw_time_filter_refuted. Qed.
+Example C08_null_example :
+  let b := [ {| n_row := B 1 0 5; n_null := false |}; {| n_row := B 2 0 0; n_null := true |}; {| n_row := B 12 0 0; n_null := true |}; {| n_row := B 25 1 7; n_null := false |} ] in
+  length (materialize_n day b) = 3%nat /\ routed_sum_n (fun k => snd k =? 0) (materialize_n day b) = Some 5 /\
+  routed_sum_n (fun k => (fst k =? 10)) (materialize_n day b) = None /\ routed_count_n (fun k => snd k =? 0) (materialize_n day b) = 1.
+Proof. vm_compute. repeat split; reflexivity. Qed.
 Example C08_nonvacuous :
   let b := [B 1 0 5; B 2 1 7; B 3 0 (-2); B 14 0 4; B 25 1 1] in
   routed_sum (fun k => snd k =? 0) (materialize_p day median b) = 7 /\ routed_min (fun k => snd k =? 0) (materialize_p day median b) = Some (-2) /\
